@@ -209,6 +209,10 @@ struct Sim {
     seen: BTreeSet<String>,
     stop: bool,
     quick: bool,
+    /// `child-ack` mode (strace leg): write an `ACK n what` line to fd 1 whenever the node has
+    /// just emitted something that carries a promise
+    ack_out: Option<std::fs::File>,
+    acks: u64,
 }
 
 impl Sim {
@@ -246,6 +250,8 @@ impl Sim {
             seen: BTreeSet::new(),
             stop: false,
             quick,
+            ack_out: None,
+            acks: 0,
         }
     }
 
@@ -381,6 +387,15 @@ impl Sim {
 
     fn note_term(&mut self, stamp: u64, term: u64, why: &str) {
         self.led.term(stamp, term, why);
+        self.ack(why);
+    }
+
+    fn ack(&mut self, what: &str) {
+        if let Some(f) = self.ack_out.as_mut() {
+            use std::io::Write;
+            self.acks += 1;
+            let _ = f.write_all(format!("ACK {} {}\n", self.acks, what).as_bytes());
+        }
     }
 
     fn note_grant(&mut self, r: &mut Report, stamp: u64, term: u64, cand: &str) {
@@ -790,6 +805,7 @@ impl Sim {
                     return;
                 }
                 self.model_log.push(term);
+                self.ack("propose Ok");
                 self.led.entry(post, index, term, entry_bytes(&mk_entry(index, term)), "accepted as leader (propose returned Ok)", self.live_snapshot);
                 self.check_model(r);
             }
@@ -1249,6 +1265,40 @@ fn run_case(part: Part, seed: u64, base: &Path, quick: bool, r: &mut Report) {
     let _ = &sim.dir;
 }
 
+/// `c10 child-ack <dir> <seed> <mode>`: the driver of the strace "persist before answering" leg
+/// (/verif/legs_fsync.py). Same node, same environment, no crash images: after every reply /
+/// outgoing message / accepted proposal one `ACK n what` line goes to fd 1 with a single write(2).
+fn child_ack(dir: &Path, seed: u64) -> i32 {
+    use std::os::fd::FromRawFd;
+    let mut r = Report::new();
+    let mut sim = Sim::new(Part::Main, seed, dir, true);
+    // fd 1 as an unbuffered File; never closed (ManuallyDrop semantics via mem::forget at the end)
+    sim.ack_out = Some(unsafe { std::fs::File::from_raw_fd(1) });
+    if !sim.open_node(&mut r) {
+        return 3;
+    }
+    let l0 = file_len(&sim.wal);
+    sim.calls.insert(l0);
+    sim.run_steps(60, &mut r);
+    // a clean restart in the middle of the history, then more steps
+    // (the harness itself must not write to the log here: a plain drop + reopen)
+    if !sim.stop {
+        sim.node = None;
+        if sim.open_node(&mut r) {
+            sim.run_steps(30, &mut r);
+        }
+    }
+    let acks = sim.acks;
+    if let Some(f) = sim.ack_out.take() {
+        std::mem::forget(f);
+    }
+    if acks == 0 {
+        4
+    } else {
+        0
+    }
+}
+
 fn free_bytes(p: &Path) -> Option<u64> {
     // `df -Pk` keeps libc out of the harness; only used for a start-up sanity check
     let out = std::process::Command::new("df").arg("-Pk").arg(p).output().ok()?;
@@ -1261,6 +1311,11 @@ fn free_bytes(p: &Path) -> Option<u64> {
 fn main() {
     let args = Args::parse();
     let started = Instant::now();
+    if args.rest.first().map(|s| s.as_str()) == Some("child-ack") {
+        let dir = PathBuf::from(args.rest.get(1).cloned().unwrap_or_else(|| "/tmp".into()));
+        let seed = args.rest.get(2).and_then(|s| s.parse().ok()).unwrap_or(1);
+        std::process::exit(child_ack(&dir, seed));
+    }
     quiet_panics();
     let mut total = Report::new();
     total.max_samples = 4;
